@@ -221,6 +221,9 @@ func (u *Universe) structSort(name string, st *types.Struct) *Sort {
 	s := &Sort{Name: name, Kind: KStruct}
 	for i := 0; i < st.NumFields(); i++ {
 		f := st.Field(i)
+		if f.Name() == "_" {
+			continue
+		}
 		fs := u.sortOf(f.Type())
 		if fs == nil {
 			continue
